@@ -67,7 +67,9 @@ MANIFEST = {
             "exact areas, so the unary_union statement holds at full strength (windingValid_of_valid, unaryUnion_region_valid); on EVERY closed-ring collection unary_union computes the Positive/Negative "
             "region of the summed winding numbers (unaryUnion_fill_region), so in an inconsistently wound collection the members wound against the first ring "
             "are dropped or cut out (unaryUnion_inconsistent_witness; the real code does exactly that: driver tag mixed region=fill-rule covers=less-than-union); "
-            "clip conserves length for every measure off the tolerance band (clip_length_conserved); the glue round trip polygon_from_shape ∘ ring_to_shape_path "
+            "clip keeps exactly the parts inside (inverted: outside) a valid (Multi)Polygon (clip_partition_valid) and conserves length for every measure off the "
+            "tolerance band (clip_length_conserved); the area identities with area(A), area(B) the measures of the operands' interiors (booleanOp_area_identities_valid, "
+            "S2 for MultiPolygons: evenOdd_eq_inside_multi); the glue round trip polygon_from_shape ∘ ring_to_shape_path "
             "returns every ring of a valid polygon, exterior first, holes in order, reversed and minus the extra closing coordinates, same region "
             "(glue_roundTrip, glue_roundTrip_valid, glue_roundTrip_exact, glue_roundTrip_region); clip(invert) and clip(¬invert) partition the line (clip_partition); the oracle's membership test Geo.locate = Inside is the region of the theorems off the rings (insideSpec_eq_mpInside); EngineSpec is satisfiable with a non-empty far-set (E1_spec). "
             "Every run: the engine's recorded answers instantiate the parameter and the model's output must equal the API's; the API's results are judged by an "
